@@ -272,12 +272,12 @@ def evaluate(ctx, prop, profile, scheds, m, mf, stats, tag, hb=None):
             w = l.split(" ")
             if w[0] == "call":
                 stats["call_" + w[2]] += 1
-            elif w[0] in ("close", "drain", "raw", "finish"):
+            elif w[0] in ("close", "drain", "raw", "finish", "probe"):
                 stats["op_" + w[0]] += 1
                 if w[0] == "raw":
                     stats["raw_" + w[1]] += 1
             elif w[0] == "srv":
-                for op in ("badsalt", "newsess", "badmsg", "garbage", "svc", "cont", "gz", "res", "err", "pong", "ack", "upd"):
+                for op in ("badsalt", "newsess", "badmsg", "garbage", "svc", "cont", "gz", "res", "err", "pong", "ack", "upd", "reg", "enum"):
                     if op in w[3:]:
                         stats["srv_" + op] += 1
         for r in s.rets:
@@ -311,7 +311,7 @@ def script_file(ctx, name, entries):
     return path
 
 
-def run_batches(ctx, prop, profile, n_random, pinned, enum_scopes=()):
+def run_batches(ctx, prop, profile, n_random, pinned, enum_scopes=(), extra=()):
     hb = C.build_harness("root", pkg="./cmd/c11")
     C.build_model("C11")
     stats = collections.Counter()
@@ -332,9 +332,10 @@ def run_batches(ctx, prop, profile, n_random, pinned, enum_scopes=()):
             raise C.BuildError("model enumeration failed: " + p.stderr.decode()[-1000:])
         exhaustive.append(p.stderr.decode().strip())
         batches.append(("enum-%s-%s" % (k0, k1), "script", path))
-    for (tag, mode, arg) in batches:
-        scheds, m, mf = record(ctx, hb, profile, mode, arg, tag)
-        v, d = evaluate(ctx, prop, profile, scheds, m, mf, stats, tag, hb)
+    batches = [(t, profile, mo, a) for (t, mo, a) in batches] + list(extra)
+    for (tag, prof, mode, arg) in batches:
+        scheds, m, mf = record(ctx, hb, prof, mode, arg, tag)
+        v, d = evaluate(ctx, prop, prof, scheds, m, mf, stats, tag, hb)
         validated += v
         disagreements += d
         for s in scheds.values():
